@@ -8,7 +8,7 @@ namespace ExprModel.Refine
 open ExprModel
 open ExprModel.Spec
 
-variable {c : Cfg} {P : Prog} {ctx : Ctx}
+variable {c : Cfg} {P : LProg} {ctx : Ctx}
 
 /-- per-element function of a quantifier: `stop` is the closure value that decides, `v` the decided result -/
 def fbQuant (sc : SCfg) (ctx : Ctx) (b : Node) (stop : Bool) (v : Bool) (coll : Val) : Nat → Unit → SM (Unit ⊕ Val) :=
@@ -127,17 +127,18 @@ theorem exit_end {l : Loc} {op : Op} (hop : op = .true_ ∨ op = .false_) (k : N
 /-! ### `all` -/
 
 theorem sim_all {m : Meta} {a b : Node} {ca cb : List LInstr} {ci cs car c0 : Nat}
-    (ha : Sim c P ctx a ca) (hb : ∀ ctx', Sim c P ctx' b cb) (hsmall : SmallColl c a) (hK : LoopK P.consts ci cs car c0) :
+    (ha : Sim c P ctx a ca) (hb : ∀ ctx', Sim c P ctx' b cb) (hsmall : SmallColl c a) (hK : LoopK P.consts ci cs car c0)
+    (hbl : BlameOK c P (.builtin m "all" [a, b])) :
     Sim c P ctx (.builtin m "all" [a, b])
       (ca ++ [li m.loc .begin_] ++ emitLoop m.loc ci cs car c0
         (cb ++ [li m.loc .jumpIfFalse (lsize [li m.loc .pop, li m.loc .inc ci, li m.loc .jumpBackward 0, li m.loc .pop, li m.loc .true_]), li m.loc .pop])
         ++ [li m.loc .true_, li m.loc .end_]) := by
   refine sim_loop m.loc (fbQuant (specOf c) ctx b false false) (fun _ _ => pure (.bool true)) () (fun _ => [])
-    (fun _ _ _ => True) (eval_bi_all _ m a b) ha hsmall hK rfl (fun _ _ _ _ _ _ _ => trivial)
+    (fun _ _ _ => True) (eval_bi_all _ m a b) ha hsmall hK hbl rfl (fun _ _ _ _ _ _ _ => trivial)
     (fun k st scs σ coll h => pro_begin k st scs σ coll h) ?_
-    (fun coll N k st scs σ sc' accF r σ' h _ _ hev => epi_const (.inl ⟨rfl, rfl⟩) k st scs σ sc' r σ' h hev)
+    (fun coll N k st scs σ sc' accF r σ' h _ _ hev _ => epi_const (.inl ⟨rfl, rfl⟩) k st scs σ sc' r σ' h hev)
     (fun k st scs σ sc' v h _ => exit_end (.inl rfl) k st scs σ sc' v h)
-  intro coll N k0 st scs hle _ i acc σ res σ1 sc hiN hbase _ hfb
+  intro coll N k0 st scs hle _ i acc σ res σ1 sc hiN hbase _ hfb hbr
   have hbody := loopCode_body hle
   unfold fbQuant at hfb
   unfold BodyPost
@@ -162,22 +163,23 @@ theorem sim_all {m : Meta} {a b : Node} {ca cb : List LInstr} {ci cs car c0 : Na
     · have hnb : ∀ t, x ≠ .bool t := fun t h => hbv ⟨t, h⟩
       rw [asBool_other hnb, SM.bind_apply, SM.fail_apply] at hrest
       obtain ⟨rfl, rfl⟩ := Prod.mk.inj hrest
-      exact r1.trans_err (Runs.jumpIf_err (.inr rfl) hj hnb)
+      exact r1.trans_err (Runs.jumpIf_err (.inr rfl) hj hnb (hbr _ rfl))
 
 /-! ### `none` -/
 
 theorem sim_none {m : Meta} {a b : Node} {ca cb : List LInstr} {ci cs car c0 : Nat}
-    (ha : Sim c P ctx a ca) (hb : ∀ ctx', Sim c P ctx' b cb) (hsmall : SmallColl c a) (hK : LoopK P.consts ci cs car c0) :
+    (ha : Sim c P ctx a ca) (hb : ∀ ctx', Sim c P ctx' b cb) (hsmall : SmallColl c a) (hK : LoopK P.consts ci cs car c0)
+    (hbl : BlameOK c P (.builtin m "none" [a, b])) :
     Sim c P ctx (.builtin m "none" [a, b])
       (ca ++ [li m.loc .begin_] ++ emitLoop m.loc ci cs car c0
         (cb ++ [li m.loc .not_, li m.loc .jumpIfFalse (lsize [li m.loc .pop, li m.loc .inc ci, li m.loc .jumpBackward 0, li m.loc .pop, li m.loc .true_]), li m.loc .pop])
         ++ [li m.loc .true_, li m.loc .end_]) := by
   refine sim_loop m.loc (fbQuant (specOf c) ctx b true false) (fun _ _ => pure (.bool true)) () (fun _ => [])
-    (fun _ _ _ => True) (eval_bi_none _ m a b) ha hsmall hK rfl (fun _ _ _ _ _ _ _ => trivial)
+    (fun _ _ _ => True) (eval_bi_none _ m a b) ha hsmall hK hbl rfl (fun _ _ _ _ _ _ _ => trivial)
     (fun k st scs σ coll h => pro_begin k st scs σ coll h) ?_
-    (fun coll N k st scs σ sc' accF r σ' h _ _ hev => epi_const (.inl ⟨rfl, rfl⟩) k st scs σ sc' r σ' h hev)
+    (fun coll N k st scs σ sc' accF r σ' h _ _ hev _ => epi_const (.inl ⟨rfl, rfl⟩) k st scs σ sc' r σ' h hev)
     (fun k st scs σ sc' v h _ => exit_end (.inl rfl) k st scs σ sc' v h)
-  intro coll N k0 st scs hle _ i acc σ res σ1 sc hiN hbase _ hfb
+  intro coll N k0 st scs hle _ i acc σ res σ1 sc hiN hbase _ hfb hbr
   have hbody := loopCode_body hle
   unfold fbQuant at hfb
   unfold BodyPost
@@ -191,6 +193,7 @@ theorem sim_none {m : Meta} {a b : Node} {ca cb : List LInstr} {ci cs car c0 : N
       have hnot : Reach c P (vm (k0 + 24 + lsize cb) (.bool t :: ([] ++ st)) (sc :: scs) σ2 c.budget)
           (vm (k0 + 24 + lsize cb + 1) (.bool (!t) :: ([] ++ st)) (sc :: scs) σ2 c.budget) := by
         have := Runs.not_ (c := c) (st := [] ++ st) (scs := sc :: scs) (σ := σ2) (lim := c.budget) (v := .bool t) hj
+          (fun e he => by cases he)
         exact this
       cases t
       · simp only [Bool.false_eq_true, if_false, SM.pure_apply] at hrest
@@ -207,26 +210,28 @@ theorem sim_none {m : Meta} {a b : Node} {ca cb : List LInstr} {ci cs car c0 : N
       rw [asBool_other hnb, SM.bind_apply, SM.fail_apply] at hrest
       obtain ⟨rfl, rfl⟩ := Prod.mk.inj hrest
       refine r1.trans_err ?_
-      have := Runs.not_ (c := c) (st := [] ++ st) (scs := sc :: scs) (σ := σ2) (lim := c.budget) (v := x) hj
       have hnv : notV x = .error .type_ := by
         cases x <;> first | rfl | exact absurd rfl (hnb _)
+      have := Runs.not_ (c := c) (st := [] ++ st) (scs := sc :: scs) (σ := σ2) (lim := c.budget) (v := x) hj
+        (by rw [hnv]; exact RBlame.err (hbr _ rfl))
       rw [hnv] at this
       exact this
 
 /-! ### `any` -/
 
 theorem sim_any {m : Meta} {a b : Node} {ca cb : List LInstr} {ci cs car c0 : Nat}
-    (ha : Sim c P ctx a ca) (hb : ∀ ctx', Sim c P ctx' b cb) (hsmall : SmallColl c a) (hK : LoopK P.consts ci cs car c0) :
+    (ha : Sim c P ctx a ca) (hb : ∀ ctx', Sim c P ctx' b cb) (hsmall : SmallColl c a) (hK : LoopK P.consts ci cs car c0)
+    (hbl : BlameOK c P (.builtin m "any" [a, b])) :
     Sim c P ctx (.builtin m "any" [a, b])
       (ca ++ [li m.loc .begin_] ++ emitLoop m.loc ci cs car c0
         (cb ++ [li m.loc .jumpIfTrue (lsize [li m.loc .pop, li m.loc .inc ci, li m.loc .jumpBackward 0, li m.loc .pop, li m.loc .false_]), li m.loc .pop])
         ++ [li m.loc .false_, li m.loc .end_]) := by
   refine sim_loop m.loc (fbQuant (specOf c) ctx b true true) (fun _ _ => pure (.bool false)) () (fun _ => [])
-    (fun _ _ _ => True) (eval_bi_any _ m a b) ha hsmall hK rfl (fun _ _ _ _ _ _ _ => trivial)
+    (fun _ _ _ => True) (eval_bi_any _ m a b) ha hsmall hK hbl rfl (fun _ _ _ _ _ _ _ => trivial)
     (fun k st scs σ coll h => pro_begin k st scs σ coll h) ?_
-    (fun coll N k st scs σ sc' accF r σ' h _ _ hev => epi_const (.inr ⟨rfl, rfl⟩) k st scs σ sc' r σ' h hev)
+    (fun coll N k st scs σ sc' accF r σ' h _ _ hev _ => epi_const (.inr ⟨rfl, rfl⟩) k st scs σ sc' r σ' h hev)
     (fun k st scs σ sc' v h _ => exit_end (.inr rfl) k st scs σ sc' v h)
-  intro coll N k0 st scs hle _ i acc σ res σ1 sc hiN hbase _ hfb
+  intro coll N k0 st scs hle _ i acc σ res σ1 sc hiN hbase _ hfb hbr
   have hbody := loopCode_body hle
   unfold fbQuant at hfb
   unfold BodyPost
@@ -251,6 +256,6 @@ theorem sim_any {m : Meta} {a b : Node} {ca cb : List LInstr} {ci cs car c0 : Na
     · have hnb : ∀ t, x ≠ .bool t := fun t h => hbv ⟨t, h⟩
       rw [asBool_other hnb, SM.bind_apply, SM.fail_apply] at hrest
       obtain ⟨rfl, rfl⟩ := Prod.mk.inj hrest
-      exact r1.trans_err (Runs.jumpIf_err (.inl rfl) hj hnb)
+      exact r1.trans_err (Runs.jumpIf_err (.inl rfl) hj hnb (hbr _ rfl))
 
 end ExprModel.Refine
